@@ -73,6 +73,7 @@ def asOp (j : Json) : R Op := do
   | "twice" => return .encodeTwice (← natF j "n")
   | "drop" => return .drop (← natF j "n")
   | "lookup" => return .lookup (← asS (← fld j "c"))
+  | "measure" => return .measure
   | o => throw s!"op {o}"
 
 def jErr : Err → Json
@@ -109,6 +110,7 @@ def jOut : Out → Json
   | .twice a b => Json.mkObj [("twice", Json.arr #[jOutcome a, jOutcome b])]
   | .dropped => Json.str "dropped"
   | .looked l => Json.mkObj [("looked", jLookup l)]
+  | .measured => Json.str "measured"
   | .noDoc => Json.str "noDoc"
 
 def jClause : Clause → Json
